@@ -49,6 +49,8 @@ fn inner_of(class: &str) -> Option<(&'static dyn Scenario, &'static str)> {
         "conc-td" => (&sc_crypt::CRYPT, "td-protocol"),
         "conc-tl" => (&sc_crypt::CRYPT, "tl-beacon"),
         "conc-eg" => (&sc_crypt::CRYPT, "eg-tally"),
+        "conc-eg-tamper" => (&sc_crypt::CRYPT, "eg-proof-tamper"),
+        "conc-tl-tamper" => (&sc_crypt::CRYPT, "tl-tamper"),
         "conc-vault" => (&sc_codec::CODEC, "vault"),
         "conc-byz-encoder" => (&sc_codec::CODEC, "byz-encoder"),
         "conc-hostile" => (&sc_codec::CODEC, "hostile-decoders"),
@@ -258,7 +260,12 @@ impl Scenario for ConcSc {
         // own, registered before or after its first use of the library)
         if plan.seed % 3 == 0 {
             let mut x = Xo::derive(plan.seed, &[0x7EA2]);
-            let picks: Vec<usize> = (0..4).map(|_| x.below(trace.len() as u64) as usize).collect();
+            // half of the time all four calls are the same operation (per-thread state of that operation is set up by the
+            // calls made normally and is gone, or going, when the last two are made)
+            let first = x.below(trace.len() as u64) as usize;
+            let alike: Vec<usize> = (0..trace.len()).filter(|i| trace[*i].op == trace[first].op).collect();
+            let same_op = x.chance(1, 2);
+            let picks: Vec<usize> = (0..4).map(|k| if k == 0 { first } else if same_op { alike[x.below(alike.len() as u64) as usize] } else { x.below(trace.len() as u64) as usize }).collect();
             let calls: Vec<Call> = picks.iter().map(|i| Call { lib, g: trace[*i].g, op: trace[*i].op, args: trace[*i].args.clone(), clock: trace[*i].clock, route: trace[*i].route }).collect();
             let early = x.chance(1, 2);
             let outs = conc::run_at_thread_exit(calls, 2, early, plan.seed);
